@@ -26,6 +26,8 @@ func main() {
 		balloonCmd(out, *seed, *tier)
 	case "canon":
 		canonCmd(out, *seed, *tier)
+	case "topo":
+		topoCmd(out, *seed, *tier)
 	default:
 		fmt.Fprintln(os.Stderr, "unknown command", cmd)
 		os.Exit(2)
